@@ -212,8 +212,8 @@ func ReadHead(br *bufio.Reader) (*Head, error) {
 func Handlers() []vh.G {
 	var out []vh.G
 	for _, g := range vh.MartianGoroutines() {
-		if g.HasFrame("martian/v3.(*Proxy).Serve") {
-			continue
+		if g.HasFrame("martian/v3.(*Proxy).Serve") || g.HasFrame("martian/v3/trafficshape.(*Bucket).loop") {
+			continue // the accept loop; the tickers of a trafficshape listener that is still open
 		}
 		out = append(out, g)
 	}
